@@ -6,9 +6,16 @@
 (* buffer reaches stdout in exactly one place (EmitBuf), or never (Fail).     *)
 (*                                                                          *)
 (* What the statement leaves open is a POLICY (whether a width applies to  *)
-(* %v / to %%, whether the zero flag applies with a negative width): the   *)
-(* buffer holds symbolic pieces and is turned into bytes per policy, so    *)
-(* the machine prescribes the SET of outputs the statement allows.         *)
+(* %v / to %%): the buffer holds symbolic pieces and is turned into bytes  *)
+(* per policy, so the machine prescribes the SET of outputs the statement  *)
+(* allows.                                                                  *)
+(* The fill byte is NOT open: the statement has one padding rule with two  *)
+(* independent modifiers, the side ("on the right for a negative width")   *)
+(* and the byte ("with zeros when the width is written with a leading 0"). *)
+(* A width is the text between the '%' and the directive letter; "-05" is  *)
+(* written with a leading '-', so only an unsigned width can ask for zeros *)
+(* and padding on the right is always blanks (zeros appended to a number   *)
+(* would display a different number: 3 as 30000).                          *)
 (*                                                                          *)
 (* The second half is an independent, declarative definition of the same   *)
 (* function (RefPrintf: whole-directive lookahead, closed-form width       *)
@@ -24,8 +31,13 @@ TooWide == MaxWidth + 1      \* width values saturate here (TLC integers are 32 
 Min2(a, b) == IF a < b THEN a ELSE b
 Max2(a, b) == IF a > b THEN a ELSE b
 
-\* An argument: kind \in {"str","num","null","arr"}, r = its rendering (bytes;
-\* the print format of the value, top-level strings raw), src = source text.
+\* An argument: kind \in ArgKinds, r = its rendering (bytes; the print format
+\* of the value, top-level strings raw), src = a name the harness turns into
+\* source text.  "unset" is a name that was never assigned; "fn" a user or
+\* built-in function.  Only the kind decides whether a directive takes it:
+\* a regex carries a source text and a missing element remembers its index,
+\* neither makes it a string or a number.
+ArgKinds == {"str", "num", "null", "bool", "arr", "obj", "regex", "unset", "fn"}
 NoArg == [kind |-> "none", r |-> <<>>, src |-> "-"]
 KindOK(d, a) == \/ d = "v"
                 \/ d = "s" /\ a.kind = "str"
@@ -36,12 +48,13 @@ LitPiece(c) == [t |-> "lit", c |-> c, d |-> "", w |-> 0, neg |-> FALSE, zero |->
 FldPiece(d, w, neg, zero, r) == [t |-> "fld", c |-> "", d |-> d, w |-> w, neg |-> neg, zero |-> zero, r |-> r]
 
 \* ---- policies: the readings the statement admits
-Policies == [v : BOOLEAN, pct : BOOLEAN, zneg : BOOLEAN]
-CodePolicy == [v |-> FALSE, pct |-> FALSE, zneg |-> FALSE]   \* what the pinned code does (not used for verdicts)
+Policies == [v : BOOLEAN, pct : BOOLEAN]
+CodePolicy == [v |-> FALSE, pct |-> FALSE]   \* what the pinned code does (not used for verdicts)
 Applies(p, pol) == \/ p.d \in {"s", "f"}
                    \/ p.d = "v" /\ pol.v
                    \/ p.d = "%" /\ pol.pct
-PadCh(p, pol) == IF p.zero /\ (~p.neg \/ pol.zneg) THEN "0" ELSE " "
+ZeroFill(neg, zero) == zero /\ ~neg        \* the width text starts with "0"
+PadCh(p, pol) == IF ZeroFill(p.neg, p.zero) THEN "0" ELSE " "
 PadCount(p, pol) == IF Applies(p, pol) /\ p.w > Len(p.r) THEN p.w - Len(p.r) ELSE 0
 
 \* Output is kept as runs <<byte, count>> so that a width of 65536 stays small.
@@ -224,7 +237,7 @@ RefScan(f, i, as, ai, pol) ==
             ELSE
               LET r == IF need THEN as[ai + 1].r ELSE <<"%">>
                   applies == d \in {"s", "f"} \/ (d = "v" /\ pol.v) \/ (d = "%" /\ pol.pct)
-                  ch == IF zero /\ (~neg \/ pol.zneg) THEN "0" ELSE " "
+                  ch == IF wt # <<>> /\ wt[1] = "0" THEN "0" ELSE " "
                   fld == IF applies THEN RefPad(r, w, neg, ch) ELSE r
                   rest == RefScan(f, j + 1, as, IF need THEN ai + 1 ELSE ai, pol)
               IN IF rest.ok THEN [rest EXCEPT !.bytes = fld \o @] ELSE rest
